@@ -3,7 +3,10 @@ package props
 // Shared fixtures and generators for the world-based checks.
 
 import (
+	"bytes"
+	"compress/flate"
 	"fmt"
+	"io"
 	"strings"
 	"time"
 
@@ -165,4 +168,11 @@ func short(s string, n int) string {
 // generator favours small indexes); shrinking still moves towards the first element.
 func pick[T any](t *rapid.T, label string, xs []T) T {
 	return xs[int(rapid.Uint64().Draw(t, label)%uint64(len(xs)))]
+}
+
+// inflateAll is the harness's own raw-DEFLATE reader.
+func inflateAll(b []byte) ([]byte, error) {
+	r := flate.NewReader(bytes.NewReader(b))
+	defer r.Close()
+	return io.ReadAll(r)
 }
